@@ -6,6 +6,7 @@ import (
 	"context"
 	"fmt"
 	"math"
+	"os"
 	"regexp"
 	"strconv"
 	"strings"
@@ -44,6 +45,7 @@ func errClass(msg string) string {
 	if i := strings.IndexByte(msg, '\n'); i >= 0 {
 		msg = msg[:i]
 	}
+	msg = strings.TrimPrefix(msg, "wat2wasm: ")
 	msg = quoteRe.ReplaceAllString(msg, "<name>")
 	msg = numRe.ReplaceAllString(msg, "N")
 	if len(msg) > 80 {
@@ -89,7 +91,11 @@ type wzEngine struct {
 
 func newWz() (*wzEngine, error) {
 	e := &wzEngine{ctx: context.Background()}
-	e.rt = wazero.NewRuntime(e.ctx)
+	if os.Getenv("C06_WZ") == "interp" {
+		e.rt = wazero.NewRuntimeWithConfig(e.ctx, wazero.NewRuntimeConfigInterpreter())
+	} else {
+		e.rt = wazero.NewRuntime(e.ctx) // what `wa run` uses: the compiler where supported
+	}
 	_, err := e.rt.NewHostModuleBuilder("env").NewFunctionBuilder().
 		WithGoFunction(api.GoFunc(func(ctx context.Context, stack []uint64) {
 			if len(e.trace) < 4096 {
@@ -143,8 +149,9 @@ func (e *wzEngine) run(wasm []byte, steps []callStep) (o Obs) {
 		o.Inst = "inst-error:engine panic: " + errClass(p)
 		return
 	}
+	instErr := err
 	defer func() {
-		if mod != nil {
+		if instErr == nil && mod != nil {
 			mod.Close(e.ctx)
 		}
 		if compiled != nil {
